@@ -56,12 +56,27 @@ func unitPath(m *pipe.Module, d string) string {
 	return m.PkgPath(d)
 }
 
+// unitDir: the directory of a unit, relative to the main module's root (as the loader's world and the snapshots name it).
+func unitDir(m *pipe.Module, d string) string {
+	if !strings.HasPrefix(d, "@") {
+		return d
+	}
+	path := d[1:]
+	if x := m.ExtOf(path); x != nil {
+		if path == x.ModPath {
+			return x.Dir
+		}
+		return x.Dir + "/" + strings.TrimPrefix(path, x.ModPath+"/")
+	}
+	return strings.TrimPrefix(strings.TrimPrefix(path, m.ModPath), "/")
+}
+
 // twoModules: ONE run over packages of TWO modules — the application module and a library it uses through
 // `replace => ../lib` (or a nested module), both named as entrypoints — which differ in what the formatter looks at: go
 // directives on either side of 1.13 (0644 is rewritten to 0o644 from go 1.13 on) and a dot-less module path (gofumpt keeps
 // imports of the file's own module apart from the standard library; a dot-less path of ANOTHER module looks like std).
 // appFirst: the application's import paths sort before the library's (Execute walks the packages in sorted order).
-func twoModules(appPath, appGo, libPath, libGo, libDir string, custom bool) input {
+func twoModules(appPath, appGo, libPath, libGo, libDir string, custom bool, work ...bool) input {
 	const perm = "func (%s) Perm() int { return 0644 }\n"
 	libName := libPath[strings.LastIndex(libPath, "/")+1:]
 	m := pipe.Module{ModPath: appPath, GoVer: appGo, Pkgs: []pipe.Pkg{
@@ -71,6 +86,9 @@ func twoModules(appPath, appGo, libPath, libGo, libDir string, custom bool) inpu
 			{Dir: "q", Name: "q", Imports: []string{"inner"}, Types: []pipe.Type{{Name: "Mode", Enabled: []string{"perm"}}}},
 			{Dir: "inner", Name: "inner", Types: []pipe.Type{{Name: "X"}}}}}}}
 	_ = libName
+	if len(work) > 0 && work[0] { // a go.work workspace instead of require + replace
+		m.Work = "auto"
+	}
 	steps := map[string]pipe.Step{
 		appPath + "/p File": {Body: fmt.Sprintf(perm, "File"), Use: []string{"strings.Builder", libPath + "/q.Mode"}},
 		appPath + "/p2 Dir": {Body: fmt.Sprintf(perm, "Dir")},
@@ -88,6 +106,9 @@ func twoModuleCorner() []input {
 		twoModules("example.com/zapp", "1.22", "alib", "1.22", "../alib", false),           // same language version, dot-less library path
 		twoModules("example.com/app", "1.22", "zlib", "1.12", "../zlib", true),             // both differ
 		twoModules("app", "1.22", "example.com/lib", "1.22", "../lib", false),              // dot-less application path
+		// the same selections in a go.work workspace: sibling module (go.work in the parent directory), nested module
+		twoModules("example.com/app", "1.22", "example.com/lib", "1.12", "../lib", false, true),
+		twoModules("example.com/zapp", "1.22", "example.com/zapp/lib", "1.22", "lib", true, true),
 	}
 }
 
@@ -104,7 +125,7 @@ func twoModuleScenario(r *core.RNG) input {
 	if r.Chance(30) {
 		libDir = "lib"
 	}
-	in := twoModules(app, appGo, lib, libGo, libDir, r.Chance(40))
+	in := twoModules(app, appGo, lib, libGo, libDir, r.Chance(40), r.Chance(35))
 	if r.Chance(50) { // without the import tracker the runs are compared with the model in Coq as well
 		for k, st := range in.Gens[0].Steps {
 			st.Use = nil
@@ -140,6 +161,15 @@ func corner() []input {
 		out = append(out, input{Scenario: pipe.Scenario{Module: m, All: !alias, Base: "zz_generated",
 			Gens: []pipe.Gen{{Name: "g1", Proto: true, Alias: alias, Steps: steps}}}, Together: [][]string{{"a", "b"}, {"b", "a"}}})
 	}
+	// no custom New and a prototype whose underlying type is not a struct (the value itself is the bookkeeping: a map, a
+	// slice, an int; pointer receivers): the per-package instance is a pointer to a fresh zero value of that type.  And
+	// the map kind with a custom New.
+	for ki, kind := range pipe.Kinds {
+		out = append(out, input{Scenario: pipe.Scenario{Module: m, All: ki == 1, Base: "zz_generated",
+			Gens: []pipe.Gen{{Name: "g1", Kind: kind, Alias: ki == 2, Steps: steps}}}, Together: [][]string{{"a", "b"}, {"b", "a"}}})
+	}
+	out = append(out, input{Scenario: pipe.Scenario{Module: m, Base: "zz_generated",
+		Gens: []pipe.Gen{{Name: "g1", Kind: "map", CustomNew: true, Steps: steps}}}, Together: [][]string{{"a", "b"}, {"b", "a"}}})
 	// the same with references through the import tracker (a shared tracker would leak b's imports into a's file)
 	use := map[string]pipe.Step{"example.com/m/a T0": {Use: []string{"strings.Builder"}}, "example.com/m/a T1": {Body: "var X = 1\n"},
 		"example.com/m/b T0": {Use: []string{"bytes.Buffer", "example.com/m/a.T0"}}}
@@ -207,7 +237,11 @@ func tagScenario(r *core.RNG) pipe.Scenario {
 	m.ModPath, m.GoVer = core.Pick(r, []string{"example.com/m", "m.test/mod"}), "1.22"
 	names := []string{"g1", "g2"}[:1+r.Intn(2)]
 	for _, n := range names {
-		sc.Gens = append(sc.Gens, pipe.Gen{Name: n, CustomNew: r.Chance(30), Proto: r.Chance(40), Alias: r.Chance(30), Steps: map[string]pipe.Step{}})
+		g := pipe.Gen{Name: n, CustomNew: r.Chance(30), Proto: r.Chance(40), Alias: r.Chance(30), Steps: map[string]pipe.Step{}}
+		if !g.CustomNew && r.Chance(25) {
+			g.Kind = core.Pick(r, pipe.Kinds)
+		}
+		sc.Gens = append(sc.Gens, g)
 	}
 	switch k := r.Intn(10); {
 	case k < 3:
@@ -445,6 +479,9 @@ func (prop) Generate(r *core.RNG, tier string) []json.RawMessage {
 	for i := 0; i < ntm; i++ {
 		out = append(out, enc(twoModuleScenario(r)))
 	}
+	for _, in := range queryCorner() {
+		out = append(out, enc(in))
+	}
 	for i := 0; i < n; i++ {
 		var sc pipe.Scenario
 		for try := 0; try < 20; try++ {
@@ -458,6 +495,12 @@ func (prop) Generate(r *core.RNG, tier string) []json.RawMessage {
 		for gi := range sc.Gens { // make the generators stateful
 			if !sc.Gens[gi].CustomNew && r.Chance(50) {
 				sc.Gens[gi].Proto = true
+			}
+			if r.Chance(30) { // a prototype that is not a struct (with a custom New: the map kind only)
+				sc.Gens[gi].Kind = core.Pick(r, pipe.Kinds)
+				if sc.Gens[gi].CustomNew {
+					sc.Gens[gi].Kind = "map"
+				}
 			}
 			for k, st := range sc.Gens[gi].Steps {
 				if st.Res == "" && !strings.Contains(st.Body, "(\n") && r.Chance(70) {
@@ -503,6 +546,27 @@ func (prop) Generate(r *core.RNG, tier string) []json.RawMessage {
 			sc = tagScenario(r)
 		} else {
 			sc = docScenario(r)
+		}
+		var dirs []string
+		for _, p := range sc.Module.Pkgs {
+			dirs = append(dirs, p.Dir)
+		}
+		out = append(out, enc(withRuns(r, sc, dirs, tier)))
+	}
+	// what the queries of the shared Universe answer, rendered into the files (probe.go)
+	nq, n14 := 7, 2
+	if tier == "thorough" {
+		nq, n14 = 50, 12
+	}
+	for i := 0; i < nq+n14; i++ {
+		var sc pipe.Scenario
+		switch {
+		case i < nq:
+			sc = queryScenario(r)
+		case (i-nq)%3 == 2:
+			sc = fromC14(r, "variadic")
+		default:
+			sc = fromC14(r, "trans")
 		}
 		var dirs []string
 		for _, p := range sc.Module.Pkgs {
@@ -579,16 +643,33 @@ func (prop) Run(raw json.RawMessage, scratch string) core.Result {
 	}
 	usesImports := false
 	usesDocs := false
+	usesProbes := false
 	stateful := false
 	for _, g := range in.Gens {
 		for _, st := range g.Steps {
 			usesImports = usesImports || len(st.Use) > 0
 			usesDocs = usesDocs || len(st.DocOf) > 0
+			usesProbes = usesProbes || len(st.Probe) > 0
 			stateful = stateful || st.Count || st.Helper
 		}
 	}
 	var obs observed
 	obs.Singles = map[string]runObs{}
+	for _, p := range in.Module.Pkgs {
+		if len(p.Decls) == 0 {
+			continue
+		}
+		// packages with functions of their own: the module has to compile (the loader goes on with type errors, and
+		// shrinking drops declarations blindly)
+		if err := in.Module.TypeCheck(); err != nil {
+			res.Notes = append(res.Notes, "synthetic module does not type-check: "+err.Error())
+			res.Tags = []string{"run-failed-to-start"}
+			res.Observed = obs
+			res.Coq = fmt.Sprintf("(mk_case %s %s %s [] [] [] [])", core.CoqBool(in.All), core.CoqBool(in.Force), core.Hex(in.Base))
+			return res
+		}
+		break
+	}
 	k := 0
 	runOne := func(dirs []string) (*pipe.Observation, bool) {
 		sc := in.Scenario
@@ -657,15 +738,33 @@ func (prop) Run(raw json.RawMessage, scratch string) core.Result {
 
 	// the property, decided on the Go side as well (and only here for generators that use the import tracker)
 	compared := 0
+	lost := false // a requested package that the loader does not report as selected
 	for ti, o := range together {
 		if !done(o) {
 			continue
 		}
+		// the packages generated in this run: what the loader reports as selected (under All: as local) and, whatever the
+		// loader says, every package the run was asked for (a requested package the loader loses must not go unnoticed)
+		type gen struct{ path, dir string }
+		var gens []gen
+		listed := map[string]bool{}
 		for _, wp := range o.Run.World.Pkgs {
-			if !(in.All || wp.Direct) {
-				continue
+			if in.All || wp.Direct {
+				gens = append(gens, gen{wp.Path, wp.Dir})
 			}
-			so := singles[wp.Path]
+			if wp.Direct {
+				listed[wp.Path] = true
+			}
+		}
+		for _, u := range in.Together[ti] {
+			if path := unitPath(&in.Module, u); !listed[path] {
+				listed[path] = true
+				gens = append(gens, gen{path, unitDir(&in.Module, u)})
+				lost = true
+			}
+		}
+		for _, wp := range gens {
+			so := singles[wp.path]
 			if so == nil || !done(so) {
 				continue
 			}
@@ -673,21 +772,21 @@ func (prop) Run(raw json.RawMessage, scratch string) core.Result {
 			seen := map[string]bool{}
 			for _, t := range []pipe.Tree{o.After, so.After} {
 				for path := range t {
-					if dirOf(path) != wp.Dir || path == "gengo.sum" || seen[path] {
+					if dirOf(path) != wp.dir || path == "gengo.sum" || seen[path] {
 						continue
 					}
 					seen[path] = true
 					a, okA := o.After[path]
 					b, okB := so.After[path]
 					if okA != okB || string(a) != string(b) {
-						res.GoViolations = append(res.GoViolations, fmt.Sprintf("%s differs between the run of %v and the run of %s alone", path, in.Together[ti], wp.Path))
+						res.GoViolations = append(res.GoViolations, fmt.Sprintf("%s differs between the run of %v and the run of %s alone", path, in.Together[ti], wp.path))
 					}
 				}
 			}
 		}
 	}
 
-	goSideOnly := usesImports || usesDocs
+	goSideOnly := usesImports || usesDocs || usesProbes
 	if !goSideOnly {
 		var tr, sg []string
 		for _, o := range together {
@@ -700,12 +799,28 @@ func (prop) Run(raw json.RawMessage, scratch string) core.Result {
 			pipe.CoqGens(in.Gens), pipe.CoqTree(together[0].Before), core.CoqList(tr), core.CoqList(sg))
 	}
 	if goSideOnly {
-		// the import tracker and Context.Doc are not modelled: the property is decided on the Go side above; the Coq case carries no runs
+		// the import tracker, Context.Doc and the Universe's queries are not modelled: the property is decided on the Go side above; the Coq case carries no runs
 		res.Coq = fmt.Sprintf("(mk_case %s %s %s [] [] [] [])", core.CoqBool(in.All), core.CoqBool(in.Force), core.Hex(in.Base))
 	}
 	res.Nontrivial = compared > 0 && len(in.Module.Pkgs) >= 2
 	res.Tags = []string{fmt.Sprintf("packages:%d", len(in.Module.Pkgs)), fmt.Sprintf("together-runs:%d", len(in.Together))}
+	if lost {
+		res.Tags = append(res.Tags, "requested-package-not-selected-by-the-loader")
+	}
+	for _, g := range in.Gens {
+		if g.Kind != "" {
+			res.Tags = append(res.Tags, "generator-kind:"+g.Kind)
+			if g.CustomNew {
+				res.Tags = append(res.Tags, "generator-kind:"+g.Kind+"+custom-New")
+			}
+		}
+	}
 	for _, x := range in.Module.Ext {
+		if in.Module.Work != "" {
+			res.Tags = append(res.Tags, "two-modules:go.work-workspace")
+		} else {
+			res.Tags = append(res.Tags, "two-modules:require+replace")
+		}
 		res.Tags = append(res.Tags, "two-modules-in-one-run")
 		if goOld(x.GoVer) != goOld(in.Module.GoVer) {
 			res.Tags = append(res.Tags, "two-modules:go-directives-on-either-side-of-1.13")
@@ -740,6 +855,7 @@ func (prop) Run(raw json.RawMessage, scratch string) core.Result {
 			res.Tags = append(res.Tags, "context-doc:type-of-another-package")
 		}
 	}
+	res.Tags = append(res.Tags, queryTags(in)...)
 	switch {
 	case len(in.Globals) > 0:
 		res.Tags = append(res.Tags, "globals:enable-a-generator")
@@ -765,7 +881,7 @@ func (prop) Run(raw json.RawMessage, scratch string) core.Result {
 		}
 	}
 	for _, g := range in.Gens {
-		if !g.CustomNew && g.Proto {
+		if !g.CustomNew && g.Proto && g.Kind == "" {
 			res.Tags = append(res.Tags, "reflect-New:prototype-with-map-and-pointer")
 			break
 		}
@@ -857,6 +973,18 @@ func (prop) Shrink(raw json.RawMessage) []json.RawMessage {
 			}
 		}
 	}
+	for gi, g := range in.Gens {
+		for k, st := range g.Steps {
+			for ui := range st.Probe {
+				var c input
+				_ = json.Unmarshal(raw, &c)
+				s2 := c.Gens[gi].Steps[k]
+				s2.Probe = append(append([]string{}, st.Probe[:ui]...), st.Probe[ui+1:]...)
+				c.Gens[gi].Steps[k] = s2
+				out = append(out, enc(c))
+			}
+		}
+	}
 	for _, c := range pipe.ShrinkScenario(sc) {
 		ok := true
 		have := map[string]bool{}
@@ -875,7 +1003,7 @@ func (prop) Shrink(raw json.RawMessage) []json.RawMessage {
 		for _, g := range c.Gens { // a documented foreign type stays a type of a package the reader imports (so it is loaded in every run)
 			for k, st := range g.Steps {
 				self := k[:strings.Index(k, " ")]
-				for _, ref := range st.DocOf {
+				for _, ref := range append(append([]string{}, st.DocOf...), st.Probe...) { // likewise a probed package
 					if path := ref[:strings.LastIndex(ref, ".")]; path != self {
 						ok = ok && imports[self+" "+path]
 					}
@@ -884,7 +1012,7 @@ func (prop) Shrink(raw json.RawMessage) []json.RawMessage {
 		}
 		for _, g := range c.Gens { // references stay references to packages that exist in the module
 			for _, st := range g.Steps {
-				for _, u := range append(append([]string{}, st.Use...), st.DocOf...) {
+				for _, u := range append(append(append([]string{}, st.Use...), st.DocOf...), st.Probe...) {
 					if path := u[:strings.LastIndex(u, ".")]; strings.HasPrefix(path, c.Module.ModPath+"/") {
 						ok = ok && have[strings.TrimPrefix(path, c.Module.ModPath+"/")]
 					}
